@@ -19,7 +19,7 @@ import re
 
 from checks import magpipe
 
-PROPS = [("Moyo.Props.C13", "Moyo/Props/C13.lean")]
+PROPS = [("Moyo.Props.C13", "Moyo/Props/C13.lean"), ("Moyo.Props.C13Stages", "Moyo/Props/C13Stages.lean")]
 
 POS = {"C13[std-pos]", "C13[std-onto-pos]", "C13[sym-rep-pos]", "C13[sym-ref]", "C13[sym-tab-pos]"}
 MOM = {"C13[std-mom]", "C13[std-onto-mom]", "C13[prim-mom]", "C13[sym-rep-mom]", "C13[sym-tab-mom]"}
@@ -71,7 +71,7 @@ def run(tier, seed):
     return magpipe.run_property(
         "C13", tier, seed, PROPS,
         "G-mag cases (see plan): own conventional cells (centred and primitive), re-based/shifted/rotated/permuted cells, supercells, reversed and zero moments, both actions and both moment kinds; non-trivial when a dataset was returned for a re-described input; distinct = distinct input magnetic cells + parameters",
-        nontrivial, classify=classify, trusted=TRUSTED)
+        nontrivial, classify=classify, trusted=TRUSTED, stages=["s6m"])
 
 
 def replay(path):
